@@ -54,6 +54,8 @@ func init() {
 		RunHashFresh(p, r, backendScope)
 		RunHtfAgree(p, r)
 		RunSibling(p, r, "C03")
+		RunOrderGuardDomain(p, r)
+		r.RequireMin("ORDER-GUARD", 7)
 		r.RequireMin("CONC-CTX", 7*12)
 		r.RequireMin("CONC-CLOSE", 7*9)
 		r.RequireMin("CONC-DAG", 7)
